@@ -18,7 +18,7 @@ func main() {
 		"distinct = distinct per-signing outcome signatures (attempt count, per-attempt submit pattern, final status)")
 	run.Assume("exact time-out height and penalty set are asserted on histories without parameter changes; with parameter changes only the 'never early' direction",
 		"bounded liveness: terminal within max_signing_attempt*signing_period+1 blocks of creation (parameters unchanged)")
-	n := run.N(40, 2000)
+	n := run.N(160, 2000)
 	tssworld.RunCases(run, "c10", n, func(r *sim.Rng, i int) tssworld.Cfg {
 		nm := r.Range(2, 7)
 		return tssworld.Cfg{
